@@ -98,6 +98,22 @@ def segs_of(v):
     return None
 
 
+def resolve_lens(st, segs):
+    """replace the symbolic length of a 'sym' segment by the concrete one the path condition asserts (Length(t) == k): reads that
+    span such a segment can then be split structurally"""
+    if segs is None:
+        return None
+    out = []
+    for s in segs:
+        if s[0] == 'sym' and not isinstance(s[2], int):
+            from .builtins_model2 import known_length
+            k = known_length(st, s[1])
+            if k is not None:
+                s = ('sym', s[1], k)
+        out.append(s)
+    return out
+
+
 def to_vbytes(v):
     if isinstance(v, VBytes):
         return v
@@ -587,6 +603,12 @@ def _read_structural(interp, st, c, n):
                 if off == l:
                     i, off = i + 1, 0
             else:
+                if not isinstance(l, int) and s[0] == 'sym':
+                    from .builtins_model2 import known_length
+                    kl = known_length(st, s[1])          # Length(t) == k asserted in the path condition
+                    if kl is not None:
+                        l = kl
+                        s = ('sym', s[1], kl)
                 if not isinstance(l, int):
                     if off == 0 and st.entails(l == 0):
                         i += 1
